@@ -1,0 +1,108 @@
+//go:build verif
+
+package dragonboat
+
+import (
+	"bytes"
+	"io"
+
+	"github.com/lni/dragonboat/v4/internal/logdb"
+	"github.com/lni/dragonboat/v4/internal/rsm"
+	"github.com/lni/dragonboat/v4/internal/server"
+	"github.com/lni/dragonboat/v4/internal/vfs"
+	"github.com/lni/dragonboat/v4/raftio"
+	pb "github.com/lni/dragonboat/v4/raftpb"
+	sm "github.com/lni/dragonboat/v4/statemachine"
+)
+
+// White-box access for the C16 verification harness (snapshot directories).
+// Compiled only with -tags verif. Every method calls the real snapshotter /
+// SSEnv method of the same name; the only re-implemented lines are the three
+// of node.doSave that handle errSnapshotOutOfDate (VerifCommit) and the two of
+// engine.onSnapshotSaved / node.removeSnapshotFlagFile (VerifRemoveFlagFile).
+
+// VerifC16 wraps one replica's snapshotter, built as NodeHost.startShard does.
+type VerifC16 struct {
+	s *snapshotter
+}
+
+// NewVerifC16 builds the snapshotter of (shardID, replicaID) over fs.
+func NewVerifC16(shardID uint64, replicaID uint64,
+	root func(uint64, uint64) string, ldb raftio.ILogDB, fs vfs.IFS) *VerifC16 {
+	lr := logdb.NewLogReader(shardID, replicaID, ldb)
+	s := newSnapshotter(shardID, replicaID, server.SnapshotDirFunc(root), ldb, lr, fs)
+	lr.SetCompactor(s)
+	return &VerifC16{s: s}
+}
+
+type verifC16Savable struct {
+	payload []byte
+}
+
+func (v *verifC16Savable) Save(meta rsm.SSMeta,
+	w io.Writer, session []byte, c sm.ISnapshotFileCollection) (bool, error) {
+	if _, err := w.Write(session); err != nil {
+		return false, err
+	}
+	if _, err := w.Write(v.payload); err != nil {
+		return false, err
+	}
+	return false, nil
+}
+
+// VerifSave is snapshotter.Save with a state machine that writes payload.
+func (v *VerifC16) VerifSave(index uint64, term uint64, payload []byte) (pb.Snapshot, error) {
+	meta := rsm.SSMeta{
+		Index:   index,
+		Term:    term,
+		Type:    pb.RegularStateMachine,
+		Session: bytes.NewBuffer(rsm.GetEmptyLRUSession()),
+		Membership: pb.Membership{
+			Addresses: map[uint64]string{v.s.replicaID: "a1"},
+		},
+	}
+	ss, _, err := v.s.Save(&verifC16Savable{payload: payload}, meta)
+	return ss, err
+}
+
+// VerifCommit is node.doSave's commit step: snapshotter.Commit and, when it
+// reports errSnapshotOutOfDate, ssenv.MustRemoveTempDir. outOfDate tells which.
+func (v *VerifC16) VerifCommit(ss pb.Snapshot) (outOfDate bool, err error) {
+	req := rsm.SSRequest{}
+	ssenv := v.s.getCustomEnv(rsm.SSMeta{Index: ss.Index, Request: req})
+	if err := v.s.Commit(ss, req); err != nil {
+		if snapshotCommitAborted(err) || saveAborted(err) {
+			ssenv.MustRemoveTempDir()
+			return true, nil
+		}
+		return false, err
+	}
+	return false, nil
+}
+
+// VerifShrink is snapshotter.Shrink.
+func (v *VerifC16) VerifShrink(index uint64) error { return v.s.Shrink(index) }
+
+// VerifCompact is snapshotter.Compact.
+func (v *VerifC16) VerifCompact(index uint64) error { return v.s.Compact(index) }
+
+// VerifProcessOrphans is snapshotter.processOrphans.
+func (v *VerifC16) VerifProcessOrphans() error { return v.s.processOrphans() }
+
+// VerifRemoveFlagFile is node.removeSnapshotFlagFile as called by
+// engine.onSnapshotSaved.
+func (v *VerifC16) VerifRemoveFlagFile(index uint64) error { return v.s.removeFlagFile(index) }
+
+// VerifHasFlagFile tells whether the final directory of index has a flag file.
+func (v *VerifC16) VerifHasFlagFile(index uint64) bool {
+	env := v.s.getEnv(index)
+	return env.HasFlagFile()
+}
+
+// VerifFilePath is snapshotter.getFilePath.
+func (v *VerifC16) VerifFilePath(index uint64) string { return v.s.getFilePath(index) }
+
+// VerifShrunk is snapshotter.Shrunk.
+func (v *VerifC16) VerifShrunk(index uint64) (bool, error) {
+	return v.s.Shrunk(pb.Snapshot{Index: index})
+}
